@@ -220,6 +220,7 @@ def run_property(pid, tier, seed=0):
         json.dump(replay, open(rp, 'w'), indent=1)
         lines.append(f"VIOLATION property={pid} replay={rp}" + ('' if tests else ' no-failing-input-found'))
         exit_code = 1
+    spent_v = 0.0
     for v in violations:
         item = v['item']
         res = v['res']
@@ -238,7 +239,12 @@ def run_property(pid, tier, seed=0):
                       generated_file=res['file'], checker_cmd=res['cmd'], concrete_input=None)
         cex = None
         try:
-            cex = CEX.search(pid, item['key'], res['digit'], res['mode'], budget_s=(240 if tier == 'quick' else 1200))
+            t1 = time.time()
+            if spent_v <= (600 if tier == 'quick' else 3600):
+                cex = CEX.search(pid, item['key'], res['digit'], res['mode'], budget_s=(240 if tier == 'quick' else 1200))
+            else:
+                replay['cex_search_error'] = 'counter-example search budget of this run used up by earlier violations'
+            spent_v += time.time() - t1
         except Exception as ex:  # counter-example search is best effort
             replay['cex_search_error'] = str(ex)
         if cex:
